@@ -337,6 +337,7 @@ pub fn run(s: &dyn Subject, ctx: &Ctx) -> Option<DeclReport> {
     if let Some(log) = s.de_probe() {
         rep.executions += 1;
         let first = log.first().cloned().unwrap_or_default();
+        rep.executions += log.iter().filter(|l| l.contains("rejected") || l.contains("PRODUCED")).count() as u64;
         if first != format!("deserialize_newtype_struct({})", spec.type_name) {
             rep.violate("probe:not-deserialized-as-newtype-struct", "<probe>".into(), format!("{:?}", log), format!("deserialize_newtype_struct({})", spec.type_name), String::new());
         }
